@@ -30,7 +30,7 @@ const OPS: [&str; 11] = [
     "lzma2_compress",
     "xz_compress",
 ];
-const FAULTS: [&str; 7] = [
+const FAULTS: [&str; 10] = [
     "sink write k fails",
     "sink flush fails",
     "source call k fails",
@@ -38,6 +38,9 @@ const FAULTS: [&str; 7] = [
     "sink accepts 1 byte per write",
     "sink accepts random short counts",
     "underlying source read k fails (behind a BufReader)",
+    "source call k fails with UnexpectedEof / WouldBlock / InvalidData / WriteZero / TimedOut",
+    "sink write k fails with WriteZero / WouldBlock / BrokenPipe / TimedOut",
+    "short-writing sink that also fails at write k",
 ];
 
 #[derive(Clone)]
@@ -60,6 +63,8 @@ struct Fault {
     src_interrupt_at: Option<u64>,
     /// place the probe under a BufReader of this capacity (0 = probe on top)
     src_under_bufreader: usize,
+    /// error kind used by the injected source / sink failure
+    kind: Option<std::io::ErrorKind>,
 }
 
 struct Res {
@@ -81,8 +86,9 @@ fn exec(job: &Job, f: &Fault) -> Res {
         s.fail_flush = f.sink_fail_flush;
         s.short = f.sink_short;
         s.short_rng = f.sink_short_rng;
+        s.fail_kind = f.kind;
     }
-    let rs = Rc::new(RefCell::new(ReadStats { fail_at: f.src_fail_at, interrupt_at: f.src_interrupt_at, ..Default::default() }));
+    let rs = Rc::new(RefCell::new(ReadStats { fail_at: f.src_fail_at, interrupt_at: f.src_interrupt_at, fail_kind: f.kind, ..Default::default() }));
     let mut w = sink.clone();
     let rs2 = rs.clone();
     let input = &job.input[..];
@@ -336,6 +342,42 @@ fn fam_jobs(ctx: &CaseCtx, cov: &mut Cov) -> CaseOut {
             judge(&mut out, cov, 6, format!("underlying read #{} of {} failing behind BufReader({})", k, b.src_calls, cap), &r, true);
         }
     }
+    // other error kinds: none of them may be mistaken for end of input / success
+    {
+        use std::io::ErrorKind as K;
+        let kinds_src = [K::UnexpectedEof, K::WouldBlock, K::InvalidData, K::WriteZero, K::TimedOut];
+        for &k in ks.iter().step_by(5) {
+            let kind = *rng.pick(&kinds_src);
+            let r = exec(&job, &Fault { src_fail_at: Some(k), kind: Some(kind), ..Default::default() });
+            judge(&mut out, cov, 7, format!("source call #{} of {} failing with {:?}", k, base.src_calls, kind), &r, true);
+        }
+        let kinds_sink = [K::WriteZero, K::WouldBlock, K::BrokenPipe, K::TimedOut];
+        for k in 1..=base.writes.min(40) {
+            let kind = *rng.pick(&kinds_sink);
+            let r = exec(&job, &Fault { sink_fail_at: Some(k), kind: Some(kind), ..Default::default() });
+            judge(&mut out, cov, 8, format!("sink write #{} of {} failing with {:?}", k, base.writes, kind), &r, true);
+        }
+    }
+    // two events: a short-writing sink whose k-th write then fails
+    {
+        let probe = exec(&job, &Fault { sink_short: 1, ..Default::default() });
+        let n = probe.writes.min(ctx.tier.pick(120, 1500));
+        for i in 0..n {
+            let k = if probe.writes <= n { i + 1 } else { rng.range(1, probe.writes) };
+            let r = exec(&job, &Fault { sink_short: 1, sink_fail_at: Some(k), ..Default::default() });
+            judge(&mut out, cov, 9, format!("sink accepting 1 byte per write and failing at write #{} of {}", k, probe.writes), &r, true);
+        }
+        for _ in 0..20 {
+            let seed = rng.next();
+            let p2 = exec(&job, &Fault { sink_short_rng: Some(seed), ..Default::default() });
+            if p2.writes == 0 {
+                break;
+            }
+            let k = rng.range(1, p2.writes);
+            let r = exec(&job, &Fault { sink_short_rng: Some(seed), sink_fail_at: Some(k), ..Default::default() });
+            judge(&mut out, cov, 9, format!("sink accepting random short counts and failing at write #{} of {}", k, p2.writes), &r, true);
+        }
+    }
     // short writes
     {
         let r = exec(&job, &Fault { sink_short: 1, ..Default::default() });
@@ -375,13 +417,13 @@ pub fn monitor(tier: Tier) -> Monitor {
     Monitor {
         id: "C12",
         level: "fault_enumeration",
-        rule: "per job (one of 11 operations: 3 one-shot decoders, 2 raw decoders, Stream fed from the source, 5 encoder configurations; inputs sized so that the window is flushed several times) a fault-free run counts the sink and source calls, then: every sink write k fails (all k up to 400, thorough 5000), flush fails, every source call k fails (all k up to 300, thorough 3000; sampled beyond), Interrupted once at every 7th call, underlying reads failing behind BufReader(1/7/64), sinks accepting 1 byte / random short counts per write; verdict rules: injected fault => Err (not Ok, not panic) and the sink is a prefix of the fault-free output; Ok => sink equals the fault-free output; LZMA/LZMA2 decoders leave nothing unflushed; evaluations = faulted executions; distinct by hash of (input, operation, fault)",
+        rule: "per job (one of 11 operations: 3 one-shot decoders, 2 raw decoders, Stream fed from the source, 5 encoder configurations; inputs sized so that the window is flushed several times) a fault-free run counts the sink and source calls, then: every sink write k fails (all k up to 400, thorough 5000), flush fails, every source call k fails (all k up to 300, thorough 3000; sampled beyond), Interrupted once at every 7th call, underlying reads failing behind BufReader(1/7/64), sinks accepting 1 byte / random short counts per write, source and sink failures with other error kinds (UnexpectedEof, WouldBlock, InvalidData, WriteZero, TimedOut, BrokenPipe), and two-event faults (a short-writing sink whose k-th write then fails); verdict rules: injected fault => Err (not Ok, not panic) and the sink is a prefix of the fault-free output; Ok => sink equals the fault-free output; LZMA/LZMA2 decoders leave nothing unflushed; evaluations = faulted executions; distinct by hash of (input, operation, fault)",
         assumptions: vec![
             "oracle = the fault-free run of the same call".into(),
             "ErrorKind::Interrupted may be retried (Ok with the right output) or reported (Err); only ErrorKind::Other must surface".into(),
             "a fault at a call the run never makes is not a fault (counted as faults_not_reached)".into(),
         ],
-        families: vec![Family { name: "jobs", count: tier.pick(3300, 66_000), priority: false, enumerated: false, run: fam_jobs }],
+        families: vec![Family { name: "jobs", count: tier.pick(2200, 66_000), priority: false, enumerated: false, run: fam_jobs }],
         label,
         floors,
         summarize: no_summary,
